@@ -96,6 +96,19 @@ func ServiceFunction(g Generator, s *compile.ServiceSpec, f *compile.FunctionSpe
 		return wrapGenerateError(fmt.Sprintf("%s.%s", s.Name, f.Name), err)
 	}
 
+	if f.ResultSpec != nil {
+		// The response helpers map an error back to its field of the result
+		// struct by its Go type, so every exception needs a type of its own.
+		seen := make(map[compile.TypeSpec]string, len(f.ResultSpec.Exceptions))
+		for _, e := range f.ResultSpec.Exceptions {
+			if other, ok := seen[e.Type]; ok {
+				return wrapGenerateError(fmt.Sprintf("%s.%s", s.Name, f.Name), fmt.Errorf(
+					"exceptions %q and %q both have type %q", other, e.Name, e.Type.ThriftName()))
+			}
+			seen[e.Type] = e.Name
+		}
+	}
+
 	if err := functionHelper(g, s, f); err != nil {
 		return wrapGenerateError(fmt.Sprintf("%s.%s", s.Name, f.Name), err)
 	}
